@@ -5,6 +5,20 @@ HOOK_COMMITS = ["80fcbe6"]
 TODO = "check not built yet in this round; design in DESIGN.md section 5 (to be claimed when the TLA+ module and harness exist)"
 
 CLAIMS = {
+    "C04": {
+        "text": "TLA+ contract of the pool as load balancer (LoadBalance.tla: generations of the server list incl. discovery with static fallback, least-chosen rule for roundRobin, per-generation stickiness, "
+                "positive-weight rule, nil iff empty) model-checked with all clauses as invariants; an implementation-shaped layer (atomic.Value, fetch-add, hash mod n, weighted walk) is checked to refine it. "
+                "TLC-generated behaviours, random pools, concurrent selector/watcher histories (linearisation by TLC) and 8-goroutine bursts of the real Proxy are validated by TLC against the contract.",
+        "note": "discovery played by calling useService; stickiness per list generation; Go scheduler explored by barrier rounds and stress (+ -race in thorough), not exhaustively",
+        "technique": "TLA+ spec + TLC model checking + refinement; TLC -simulate MBT; TLC trace validation with linearisation search",
+    },
+    "C10": {
+        "text": "TLA+ contract of one request through retry / time-out / breaker (Resilience.tla) model-checked; the ServerPool.handle layer is checked to refine it. Every TLC-enumerated scenario (policy x outcome "
+                "script x cancel point x stream x breaker x time-out) is run on the real Proxy with real policies and a scripted transport, and the recorded attempts, gaps, cancellation, final outcome and "
+                "breaker records are validated by TLC.",
+        "note": "real time is one-sided (lower bounds on gaps, attempt start vs recorded cancel time); mistimed scenarios are discarded; rejections are re-checked 3x slower before reporting",
+        "technique": "TLA+ spec + TLC model checking + refinement; TLC scenario enumeration run on the real code; TLC trace validation",
+    },
     "C06": {
         "text": "TLA+ contract of Validator.Handle over abstract credential records (specs/Validator.tla: Accept = every enabled method valid; single-mutation theorem; exp/nbf/iat against a clock; ETCD "
                 "credential snapshots), model-checked by TLC; every (configuration x record) vector is enumerated by TLC and concretised >= 3x on the real filter through wire format + httpprot.NewRequest + "
@@ -83,8 +97,10 @@ CLAIMS = {
         "text": "TLA+ contract of the CLOSED/OPEN/HALF_OPEN automaton (specs/CircuitBreaker.tla) model-checked exhaustively at small bounds "
                 "with every clause of the property as invariant/action property; TLC-generated behaviours over a policy grid are replayed in lock-step "
                 "on the real CircuitBreaker under a virtual clock; seeded random sequential and concurrent histories of the real breaker are validated "
-                "by TLC against the contract (linearisation search for the concurrent ones).",
-        "note": "virtual clock through the package variable nowFunc; time window interpreted at one-second granularity; Go scheduler explored by stress (+ -race in thorough), not exhaustively",
+                "by TLC against the contract (linearisation search for the concurrent ones). Pool level: the request protocol over the breaker contract (CircuitBreakerPool.tla: short-circuited => 503 / "
+                "shortCircuited, no server contacted, exactly one record per admitted request) is model-checked and real Proxy request sequences (stream and buffered bodies, with and without retry, panicking "
+                "handlers) are validated by TLC.",
+        "note": "virtual clock through the package variable nowFunc; pool-level traces use real time with one-sided waits (mistimed traces are discarded); time window interpreted at one-second granularity; Go scheduler explored by stress (+ -race in thorough), not exhaustively",
         "technique": "TLA+ spec + TLC model checking; model-based test generation (TLC -simulate) replayed on the real code; TLC trace validation with linearisation search",
     },
 }
